@@ -12,7 +12,7 @@ for p in mutants/*.patch seeded/*/patch.diff; do
   case "$p" in *"$PAT"*) ;; *) continue;; esac
   if [[ "$p" == seeded/* ]]; then name="seeded_$(basename $(dirname $p))"; demo="--demo $(ls $(dirname $p)/demo*.rs 2>/dev/null | head -1)"; else name=$(basename "$p" .patch); demo=""; fi
   slot=$((i % N)); i=$((i+1))
-  ( python3 tools/run_seeded.py "$p" $demo --slot $slot --json "mutants/results/$name.json" > /dev/null 2>&1 ) &
+  ( python3 tools/run_seeded.py "$p" $demo --slot $slot --json "mutants/results/$name.json" --collect "mutants/results/replays/$name" > /dev/null 2>&1 ) &
   if [ $((i % N)) -eq 0 ]; then wait; fi
 done
 wait
